@@ -8,6 +8,7 @@
 #include "muggle/c/crypt/des.h"
 #include "muggle/c/crypt/tdes.h"
 #include "muggle/c/base/err.h"
+#include "muggle/c/crypt/parity.h"
 
 enum { ALG_NONE, ALG_AES, ALG_DES, ALG_TDES };
 enum { FN_ECB, FN_CBC, FN_CFB, FN_OFB, FN_CTR, FN_BAD };
@@ -175,6 +176,14 @@ static void vh_op(int argc, char **argv)
 	if (!strcmp(op, "dump") && argc == 1) {
 		size_t b = g_alg == ALG_NONE ? 0 : bs();
 		puthex(g_iv.b, b); printf(" %u ", g_off); puthex(g_sb.b, b); printf("\n");
+		return;
+	}
+	if (!strcmp(op, "parity") && argc == 2) {
+		long long v = vh_ll(argv[1]);
+		if (v < 0 || v > 255) { printf("bad-op\n"); return; }
+		unsigned char b = (unsigned char)v;
+		printf("ok %u %u %d %d\n", (unsigned)muggle_parity_set_odd(b), (unsigned)muggle_parity_set_even(b),
+			muggle_parity_check_odd(b), muggle_parity_check_even(b));
 		return;
 	}
 	if (g_alg == ALG_NONE) { printf("bad-op\n"); return; }
